@@ -299,6 +299,30 @@ PROPS = {
         assumptions=['file objects behave like io.BytesIO'],
         trusted_base=[],
     ),
+    'C11': dict(
+        level='proof',
+        text='with the device behind a port abstracted by a device contract (_send may raise OSError, _receive may do nothing / '
+             'return a message / queue a message / close the port itself), the real BasePort.close, __exit__, __del__, '
+             'BaseOutput.send/reset, BaseInput.receive/poll/iter_pending/__iter__ and MultiPort._receive/multi_receive are '
+             'executed symbolically for every combination of open/closed, pending queue, autoreset, block: close releases the '
+             'device exactly once iff the port was open, after sending the 32 reset messages once when autoreset is set (an '
+             'OSError from the device is swallowed and the device is still released); send on a closed port raises ValueError; '
+             'receive hands out pending messages first (also when closed) without polling; a non-blocking receive never sleeps; a '
+             'blocking one only waits while nothing is deliverable and the port is open (loop cut: one arbitrary iteration); '
+             'iteration over a closed port drains and stops without exception; MultiPort._receive returns after one pass for both '
+             'values of block.',
+        note='trusted: pyvc, z3/cvc5; ASSUMED device contract and sequential semantics inside one call; termination of a '
+             'blocking receive on an idle open device is environment-dependent and not claimed; SocketPort/PortServer are under C18',
+        clauses=[
+            ['close idempotent, device released once, autoreset once before release, OSError swallowed; __exit__/__del__', 'P'],
+            ['send: closed -> ValueError, non-message -> TypeError, else exactly one device send of an equal fresh copy', 'P'],
+            ['receive/poll: drain first, non-blocking never waits, waits only while open and nothing deliverable', 'P'],
+            ['iteration over a closed port: pending messages in order, then stops, no exception', 'P'],
+            ['MultiPort._receive terminates after one pass (block True/False), collects every open port', 'P'],
+        ],
+        assumptions=['device contract for _open/_close/_send/_receive', 'time.sleep returns'],
+        trusted_base=[],
+    ),
     'C02': dict(
         level='proof',
         text='Message.from_bytes / decode_message are verified against the MIDI 1.0 well-formedness predicate for integer '
@@ -319,4 +343,4 @@ PROPS = {
 }
 
 NOT_APPLICABLE = {pid: _PENDING for pid in
-                  ['C10', 'C11', 'C18', 'C19', 'C20']}
+                  ['C10', 'C18', 'C19', 'C20']}
